@@ -187,6 +187,14 @@ def predict_shift(cfg, k, tol=1e-6, q0=None):
         if err > tol and scale > 1e-200:
             out.append(dict(key='shift:' + name, what='%s is not the cyclic shift of the original after moving the origin by %d grid points (rel err %.3g)' % (name, k, err),
                             rel_err=err, cfg=jsonable(cfg), k=int(k)))
+    # the field-strength evaluator of the SHIFTED object returns the prescribed |B| at its own grid nodes, in both angle conventions (its splines are tabulated
+    # against the right abscissa whatever the origin: nu = varphi - phi vanishes at the origin only)
+    try:
+        eb = bmag_node_error(q1); checked += 1
+        if eb > 1e-9:
+            out.append(dict(key='shift:B_mag', what='after moving the origin by %d grid points B_mag differs from the prescribed |B| at grid nodes by a relative %.3g' % (k, eb), rel_err=eb, cfg=jsonable(cfg), k=int(k)))
+    except Exception:
+        pass
     # the periodic interpolants of the axis and of the frame follow the shift: f1(x) = f0(x + k dphi)
     xs = np.array([0.0, 0.3, 1.1, 2.9]) * (2 * np.pi / q0.nfp) / 3.0
     dphi = 2 * np.pi / q0.nfp / n
